@@ -547,7 +547,23 @@ def run_dispose(res, ast):
         # two idioms: `for i in 0..self.size { arr[i].assume_init_drop() }` and
         # `for e in &mut arr[..self.size] { e.assume_init_drop() }` (also `arr[0..self.size]`, `.iter_mut()`)
         by_elem = False
-        okr = rng["t"] == "Range" and not rng["closed"] and int_lit(rng["start"]) == 0 and size_of(rng["end"]) == "self"
+        # an immutable local copy of the tag taken before the loop stands for it, as long as the tag is not written in between
+        tag_alias = set()
+        for l_ in walk_t(body, "Local"):
+            if l_["pat"]["t"] == "PIdent" and not l_["pat"]["mut"] and l_.get("init") is not None and size_of(l_["init"]) == "self" and before(l_, lp) \
+                    and not any(size_of(a_["left"]) == "self" and before(l_, a_) and before(a_, lp) for a_ in walk_t(body, "Assign")):
+                tag_alias.add(l_["pat"]["name"])
+
+        def is_tag(e_):
+            if e_ is None:
+                return False
+            if size_of(e_) == "self":
+                return True
+            u_ = unwrap(e_)
+            while u_["t"] == "Cast":
+                u_ = unwrap(u_["expr"])
+            return u_["t"] == "PathExpr" and u_["path"]["name"] in tag_alias
+        okr = rng["t"] == "Range" and not rng["closed"] and int_lit(rng["start"]) == 0 and is_tag(rng["end"])
         if not okr:
             it = rng
             if it["t"] == "MethodCall" and it["method"] == "iter_mut" and not it["args"]:
@@ -560,7 +576,7 @@ def run_dispose(res, ast):
                 pl = payload(it["expr"])
                 r_ = strip_paren(it["index"])
                 if pl and pl[0] == "arr" and pl[1] == "self" and r_["t"] == "Range" and not r_["closed"] and \
-                        (r_["start"] is None or int_lit(r_["start"]) == 0) and r_["end"] is not None and size_of(r_["end"]) == "self":
+                        (r_["start"] is None or int_lit(r_["start"]) == 0) and r_["end"] is not None and is_tag(r_["end"]):
                     okr = by_elem = True
         res.check(okr, "SV-DISPOSE", key0 + "|range", where(SV, lp, name), f"{name}: drop loop range is `{ast.src1(SV, rng)}`, expected 0..self.size")
         paths = block_paths(lp["body"])
